@@ -184,6 +184,32 @@ func (in *Interp) collisionFreeAxioms() *Term {
 	return ax
 }
 
+// nodeHashSeparationAxioms: Starknet node hashes are ped(a,b) (binary) or ped(a,b)+len (edge, len <= 251).
+// Ideal-hash assumption: two different Pedersen outputs are never within 251 of each other (mod P), so
+// that an edge hash cannot coincide with another node's hash unless it is the same node.
+func (in *Interp) nodeHashSeparationAxioms() *Term {
+	st := in.st
+	l, _ := in.extra["hashapps"].([]hashAppRec)
+	ax := st.True
+	P := st.ConstBig(256, feltP)
+	lim := st.Const(256, 251)
+	for i := 0; i < len(l); i++ {
+		if l[i].name != "ped" && l[i].name != "pos2" {
+			continue
+		}
+		for j := i + 1; j < len(l); j++ {
+			if l[j].name != l[i].name {
+				continue
+			}
+			a, b := l[i].t, l[j].t
+			d := in.feltSubMod(a, b)
+			far := st.BAnd(st.Cmp(OpULt, lim, d), st.Cmp(OpULt, lim, st.Bin(OpSub, P, d)))
+			ax = st.BAnd(ax, st.BOr(st.Eq(a, b), far))
+		}
+	}
+	return ax
+}
+
 func feltHex(t *Term) string { return "0x" + t.Big().Text(16) }
 
 func init() {
